@@ -345,3 +345,112 @@ end
 end
 
 end DarkluaModel.C14
+
+namespace DarkluaModel.C14
+open Spec
+
+/-! ## documents with string keys (JSON, JSON5, TOML; YAML with string keys) are inside `H14` -/
+
+/-- some entry has the string key `s` -/
+def strKeyIn (s : Bytes) : PairList → Bool
+  | .nil => false
+  | .cons (.str s') _ tl => (s' == s) || strKeyIn s tl
+  | .cons _ _ tl => strKeyIn s tl
+
+mutual
+/-- `JsonLike d`: what a JSON / JSON5 / TOML document (or a YAML document whose mapping keys
+are strings) parses to — null, booleans, integers within `i64` / `u64`, doubles, strings,
+arrays, and objects whose keys are strings, pairwise different as byte strings. Stated on the
+data alone. -/
+def JsonLike : Data → Bool
+  | .null => true
+  | .bool _ => true
+  | .i64 v => decide (-(2 ^ 63 : Int) ≤ v) && decide (v < (2 ^ 63 : Int))
+  | .u64 v => decide (v < 2 ^ 64)
+  | .f64 _ => true
+  | .str _ => true
+  | .seq xs => JsonLikeList xs
+  | .map kvs => JsonLikePairs kvs
+  | _ => false
+def JsonLikeList : DataList → Bool
+  | .nil => true
+  | .cons d tl => JsonLike d && JsonLikeList tl
+def JsonLikePairs : PairList → Bool
+  | .nil => true
+  | .cons (.str s) v tl => !strKeyIn s tl && JsonLike v && JsonLikePairs tl
+  | .cons _ _ _ => false
+end
+
+theorem keyIn_str_of_jsonLike : (kvs : PairList) → (s : Bytes) → JsonLikePairs kvs = true →
+    keyIn (.str s) kvs = strKeyIn s kvs
+  | .nil, _, _ => by simp [keyIn, strKeyIn]
+  | .cons (.str s') v tl, s, h => by
+    simp only [JsonLikePairs, Bool.and_eq_true] at h
+    have ih := keyIn_str_of_jsonLike tl s h.2
+    simp only [keyIn, strKeyIn, keyOf?, ih]
+    congr 1
+    by_cases e : s' = s
+    · subst e; simp
+    · have e' : some (Key.str s') ≠ some (Key.str s) := fun hh => e (Key.str.inj (Option.some.inj hh))
+      rw [beq_eq_false_iff_ne.2 e', beq_eq_false_iff_ne.2 e]
+  | .cons .null _ _, _, h => by simp [JsonLikePairs] at h
+  | .cons (.bool _) _ _, _, h => by simp [JsonLikePairs] at h
+  | .cons (.i64 _) _ _, _, h => by simp [JsonLikePairs] at h
+  | .cons (.u64 _) _ _, _, h => by simp [JsonLikePairs] at h
+  | .cons (.f64 _) _ _, _, h => by simp [JsonLikePairs] at h
+  | .cons (.bytes _) _ _, _, h => by simp [JsonLikePairs] at h
+  | .cons (.some _) _ _, _, h => by simp [JsonLikePairs] at h
+  | .cons (.seq _) _ _, _, h => by simp [JsonLikePairs] at h
+  | .cons (.map _) _ _, _, h => by simp [JsonLikePairs] at h
+  | .cons (.variant _ _) _ _, _, h => by simp [JsonLikePairs] at h
+
+mutual
+theorem H14_of_jsonLike : (d : Data) → JsonLike d = true → H14 d = true
+  | .null, _ => by simp [H14]
+  | .bool _, _ => by simp [H14]
+  | .i64 v, h => by simpa [H14, JsonLike] using h
+  | .u64 v, h => by simpa [H14, JsonLike] using h
+  | .f64 _, _ => by simp [H14]
+  | .str _, _ => by simp [H14]
+  | .seq xs, h => by
+    simp only [JsonLike] at h
+    simp only [H14]
+    exact H14_of_jsonLikeList xs h
+  | .map kvs, h => by
+    simp only [JsonLike] at h
+    simp only [H14, Bool.and_eq_true]
+    exact H14_of_jsonLikePairs kvs h
+  | .bytes _, h => by simp [JsonLike] at h
+  | .some _, h => by simp [JsonLike] at h
+  | .variant _ _, h => by simp [JsonLike] at h
+theorem H14_of_jsonLikeList : (xs : DataList) → JsonLikeList xs = true → H14List xs = true
+  | .nil, _ => by simp [H14List]
+  | .cons d tl, h => by
+    simp only [JsonLikeList, Bool.and_eq_true] at h
+    simp only [H14List, Bool.and_eq_true]
+    exact ⟨H14_of_jsonLike d h.1, H14_of_jsonLikeList tl h.2⟩
+theorem H14_of_jsonLikePairs : (kvs : PairList) → JsonLikePairs kvs = true →
+    H14Pairs kvs = true ∧ keysDistinct kvs = true
+  | .nil, _ => by simp [H14Pairs, keysDistinct]
+  | .cons (.str s) v tl, h => by
+    have hk := keyIn_str_of_jsonLike tl s (by
+      simp only [JsonLikePairs, Bool.and_eq_true] at h; exact h.2)
+    simp only [JsonLikePairs, Bool.and_eq_true, Bool.not_eq_true'] at h
+    obtain ⟨i1, i2⟩ := H14_of_jsonLikePairs tl h.2
+    have hv := H14_of_jsonLike v h.1.2
+    simp only [H14Pairs, keysDistinct, keyOf?, H14, hk, h.1.1, hv, i1, i2, Bool.not_false,
+      Bool.and_self]
+    simp
+  | .cons .null _ _, h => by simp [JsonLikePairs] at h
+  | .cons (.bool _) _ _, h => by simp [JsonLikePairs] at h
+  | .cons (.i64 _) _ _, h => by simp [JsonLikePairs] at h
+  | .cons (.u64 _) _ _, h => by simp [JsonLikePairs] at h
+  | .cons (.f64 _) _ _, h => by simp [JsonLikePairs] at h
+  | .cons (.bytes _) _ _, h => by simp [JsonLikePairs] at h
+  | .cons (.some _) _ _, h => by simp [JsonLikePairs] at h
+  | .cons (.seq _) _ _, h => by simp [JsonLikePairs] at h
+  | .cons (.map _) _ _, h => by simp [JsonLikePairs] at h
+  | .cons (.variant _ _) _ _, h => by simp [JsonLikePairs] at h
+end
+
+end DarkluaModel.C14
